@@ -167,7 +167,7 @@ def histories_sampled(name, count, seed):
             yield h
 
 
-def run(ctx):
+def _run(ctx):
     import multiprocessing as mp
 
     ctx.level = "other"
@@ -215,7 +215,7 @@ def run(ctx):
                 ctx.fail(classify(name, h, idx), f"C30: {name} history {_fmt(h)} op#{idx}: {probs[0]}", c, domain=d)
 
 
-def replay(rec):
+def _replay(rec):
     case = rec["case"]
     h = tuple((k, vi, frozenset(lz), c) for k, vi, lz, c in case["history"])
     failures = run_history(case["workflow"], h)
@@ -224,3 +224,13 @@ def replay(rec):
         print(f"VIOLATION property=C30 replay={rec.get('_path', '')}")
         return 1
     return 0
+
+
+def run(ctx):
+    with T.private_hash_cache():
+        _run(ctx)
+
+
+def replay(rec):
+    with T.private_hash_cache():
+        return _replay(rec)
